@@ -84,8 +84,9 @@ def expected_map(op, pre, prev):
 
 
 TRANSFORMS = ("translate", "rotate", "scale", "scale_xyz", "normalize", "fit", "to_origin", "flatten")
-DERIVED = ("subdiv", "border")
-EXTERNAL = ("proc", "load", "subdiv", "border", "arr")
+DERIVED = ("subdiv", "border", "tree", "path", "cutgraph", "features")
+EXTERNAL = ("proc", "load", "subdiv", "border", "arr", "tree", "path", "cutgraph", "features")
+STATE_OPS = ("attr", "attr_edit", "elem_edit")
 
 
 def check_case(case, steps):
@@ -93,7 +94,6 @@ def check_case(case, steps):
     fails = []
     notes = []
     prev = []            # previous observation (list of {"xyz","cls"})
-    link = {}            # object -> family id: objects derived from one another (subdivision, border) may share buffers
     before = {}          # step index -> coordinates of the target before that step (for inverse pairs)
     for k, (op, st) in enumerate(zip(ops, steps)):
         name = op[0]
@@ -113,20 +113,33 @@ def check_case(case, steps):
         target = None
         if name in TRANSFORMS or name in ("edit", "set"):
             target = op[1]
-        # ---- 1. everybody but the target is unchanged
+        if name in STATE_OPS:
+            target = op[1]
+        # ---- 1. everybody but the target is unchanged: coordinates, attributes, element lists
         for i in range(nprev):
             if i == target:
                 continue
             if cur[i]["xyz"] != prev[i]["xyz"]:
-                excuse = target is not None and link.get(i, -1 - i) == link.get(target, -1 - target)
-                # which slots moved
                 moved = [j for j, (a, b) in enumerate(zip(prev[i]["xyz"], cur[i]["xyz"])) if a != b]
-                txt = ("step %d %s on object %s changed object %d (slots %s): %s -> %s"
-                       % (k, name, target, i, moved[:4], prev[i]["xyz"][moved[0]], cur[i]["xyz"][moved[0]]))
-                if excuse:
-                    notes.append("derived-alias side effect: " + txt)
-                else:
-                    fails.append((k, name + "/changes-other-object", txt))
+                fails.append((k, name + "/changes-other-object",
+                              "step %d %s on object %s changed object %d (slots %s): %s -> %s"
+                              % (k, name, target, i, moved[:4], prev[i]["xyz"][moved[0]], cur[i]["xyz"][moved[0]])))
+            if cur[i]["attrs"] != prev[i]["attrs"]:
+                fails.append((k, name + "/changes-other-attributes",
+                              "step %d %s on object %s changed the attributes of object %d: %s -> %s"
+                              % (k, name, target, i, _short(prev[i]["attrs"]), _short(cur[i]["attrs"]))))
+            if cur[i]["elems"] != prev[i]["elems"]:
+                fails.append((k, name + "/changes-other-elements",
+                              "step %d %s on object %s changed the element lists of object %d" % (k, name, target, i)))
+        # attribute stores are never shared between live objects
+        seen = {}
+        for i, o in enumerate(cur):
+            for ci, a, ida, idd in o["attr_ids"]:
+                for key in (("a", ida), ("d", idd)):
+                    if key in seen and seen[key] != i:
+                        fails.append((k, name + "/shares-attribute-store",
+                                      "step %d %s: objects %d and %d share the storage of attribute a%d" % (k, name, seen[key], i, a)))
+                    seen[key] = i
         # ---- 2. the new object
         if isnew:
             new = cur[-1]
@@ -147,6 +160,11 @@ def check_case(case, steps):
                     fails.append((k, "copy/shares-connectivity",
                                   "step %d copy(copy_connectivity=True) hands the SAME connectivity object (mutable caches, "
                                   "back-reference to the source mesh) to the copy" % k))
+                want = prev[op[1]]["attrs"] if op[2] else []
+                if new["attrs"] != want:
+                    fails.append((k, "copy/attributes",
+                                  "step %d copy(copy_attributes=%s): attributes of the copy %s, expected %s"
+                                  % (k, bool(op[2]), _short(new["attrs"]), _short(want))))
                 sinfo = info["src"][0]
                 for key, what in CONTAINERS:
                     if info[key] != sinfo[key]:
@@ -160,6 +178,8 @@ def check_case(case, steps):
                     exp += prev[m]["xyz"]
                 if new["xyz"] != exp:
                     fails.append((k, "merge/vertices", "step %d merge: vertices are not the concatenation of the inputs" % k))
+                if new["attrs"]:
+                    fails.append((k, "merge/attributes", "step %d merge: the result carries attributes %s" % (k, _short(new["attrs"]))))
                 exp = merge_expected(info["src"])
                 if (info["edges"], info["faces"], info["cells"]) != (exp["edges"], exp["faces"], exp["cells"]):
                     fails.append((k, "merge/indices", "step %d merge: elements are not the inputs' shifted by the running vertex count" % k))
@@ -191,16 +211,18 @@ def check_case(case, steps):
                     j = [a for a in range(len(new["cls"])) if new["cls"].count(new["cls"][a]) > 1]
                     fails.append((k, "ring/shares-buffers", "step %d ring(open=%s): one vector stored under several vertex ids %s" % (k, op[3], j)))
             elif name in DERIVED:
-                link.setdefault(op[1], op[1])          # family of objects derived from one another
-                link[me] = link[op[1]]
-                fam = [s for s in range(nprev) if link.get(s, -1 - s) == link[me]]
-                bad = [j for j in shared if not any(new["cls"][j] in cur[s]["cls"] for s in fam)]
-                if dup or bad:
-                    fails.append((k, name + "/shares-buffers", "step %d %s: slots share buffers inside the result (%s) or with a stranger (%s)" % (k, name, dup, bad[:4])))
-                elif shared:
+                if dup:
+                    j = [a for a in range(len(new["cls"])) if new["cls"].count(new["cls"][a]) > 1]
+                    fails.append((k, name + "/shares-buffers",
+                                  "step %d %s %s: one vector stored under several vertex ids %s" % (k, name, op[2:3], j[:6])))
+                if shared:
                     fails.append((k, name + "/aliases-source",
-                                  "step %d %s of object %d: %d of the %d vertices of the result are the source's own vectors "
-                                  "(a transform of the result moves the source)" % (k, name, op[1], len(shared), len(new["cls"]))))
+                                  "step %d %s of object %d: %d of the %d vertices of the result are vectors of another live "
+                                  "object (a transform of the result moves it)" % (k, name, op[1], len(shared), len(new["cls"]))))
+                if info.get("shares_attr"):
+                    fails.append((k, name + "/aliases-source-attribute",
+                                  "step %d %s %s of object %d: the vertices of the result are the vectors stored in the source's "
+                                  "'barycenter' attribute" % (k, name, op[2], op[1])))
             elif name in ("proc", "load"):
                 if info.get("shares_params"):
                     fails.append((k, "proc/aliases-caller-vectors",
@@ -208,7 +230,40 @@ def check_case(case, steps):
                 if shared or dup:
                     fails.append((k, name + "/shares-buffers", "step %d %s %s: vertex slots share buffers (%s, dup=%s)" % (k, name, op[1], shared[:4], dup)))
             # links are inherited by nobody else: copy/merge/from_arrays must be fresh
+        # ---- 3a. attribute / element edits change exactly what they address
+        if name in STATE_OPS:
+            t0, t1 = prev[target], cur[target]
+            if t1["xyz"] != t0["xyz"]:
+                fails.append((k, name + "/moves-vertices", "step %d %s changed coordinates" % (k, name)))
+            if name == "attr":
+                want = [x for x in t0["attrs"] if not (x[0] == op[2] and x[1] == op[3])]
+                n = len(t1["elems"][{1: 0, 2: 1, 4: 2}[op[2]]]) if op[2] in (1, 2, 4) else None
+                got = [x for x in t1["attrs"] if x[0] == op[2] and x[1] == op[3]]
+                rest = [x for x in t1["attrs"] if not (x[0] == op[2] and x[1] == op[3])]
+                if rest != want or len(got) != 1 or got[0][2][:len(op[4])] != [int(v) for v in op[4]] \
+                        or any(v != 0 for v in got[0][2][len(op[4]):]):
+                    fails.append((k, "attr/values", "step %d attribute creation: %s -> %s" % (k, _short(t0["attrs"]), _short(t1["attrs"]))))
+                if t1["elems"] != t0["elems"]:
+                    fails.append((k, "attr/changes-elements", "step %d attribute creation changed element lists" % k))
+            elif name == "attr_edit":
+                want = [[x[0], x[1], [int(op[5]) if (x[0] == op[2] and x[1] == op[3] and j == op[4]) else v for j, v in enumerate(x[2])]]
+                        for x in t0["attrs"]]
+                if t1["attrs"] != want or t1["elems"] != t0["elems"]:
+                    fails.append((k, "attr_edit/values", "step %d attribute edit: %s -> %s, expected %s"
+                                  % (k, _short(t0["attrs"]), _short(t1["attrs"]), _short(want))))
+            else:
+                ci = {"edges": 0, "faces": 1, "cells": 2}[op[2]]
+                want = [list(map(list, x)) for x in t0["elems"]]
+                el = want[ci][op[3]]
+                want[ci][op[3]] = sorted(el) if ci == 0 else el[1:] + el[:1]
+                if t1["elems"] != want or t1["attrs"] != t0["attrs"]:
+                    fails.append((k, "elem_edit/values", "step %d element edit changed something else" % k))
+            prev = cur
+            continue
         # ---- 3. the transformed / edited object
+        if target is not None and (cur[target]["attrs"] != prev[target]["attrs"] or cur[target]["elems"] != prev[target]["elems"]):
+            fails.append((k, name + "/changes-own-attributes-or-elements",
+                          "step %d %s changed the attributes / element lists of its own target" % (k, name)))
         if target is not None:
             pre = [F3(p) for p in prev[target]["xyz"]]
             post = cur[target]["xyz"]
